@@ -107,6 +107,8 @@ def gen_engine(
     routes=False,
     reversed_bounds=False,
     broken_rules=False,
+    shared_rules=False,
+    big_blocks=False,
 ):
     nin, nout, nrb = rnd.randint(1, max_inputs), rnd.randint(1, 2), rnd.randint(1, 2)
     off = (lambda p: rnd.random() < p) if flags else (lambda p: False)
@@ -164,6 +166,16 @@ def gen_engine(
             w = gen_weight(rnd, d, free=free_weights)
             text = "if " + tree_text(rnd, tree, redundant=rnd.choice([0, 0, 0.3]), tight=rnd.choice([0, 0.5])) + " then " + " and ".join(prop_text(c) for c in concl) + weight_text(w, d)
             rb["rules"].append(dict(text=text, tree=tree, concl=concl, weight=w, enabled=not off(0.1)))
+        if big_blocks and rnd.random() < big_blocks:
+            # a long rule block: more than 32 / 64 contributions to an output variable in one step
+            target = rnd.choice(spec["outputs"])
+            for r in range(rnd.choice([34, 40, 66, 70])):
+                tree = gen_tree(rnd, list(spec["inputs"]), rnd.randint(0, 1), max_hedges=1)
+                concl = [gen_prop(rnd, target, max_hedges=1, allow_any=False)]
+                w = gen_weight(rnd, d, free=free_weights)
+                text = "if " + tree_text(rnd, tree) + " then " + prop_text(concl[0]) + weight_text(w, d)
+                rb["rules"].append(dict(text=text, tree=tree, concl=concl, weight=w, enabled=True))
+            spec["big"] = True
         if broken_rules and rnd.random() < 0.25:
             # a rule the engine cannot load: it starts like a good rule (antecedent and first conclusion are fine) and goes wrong
             # later; its load is rejected, it stays unloaded and takes no part in anything
@@ -174,6 +186,17 @@ def gen_engine(
             text = "if " + tree_text(rnd, tree) + " then " + good + tail
             rb["rules"].insert(rnd.randint(0, len(rb["rules"])), dict(text=text, tree=tree, concl=[], weight=1.0, enabled=True, broken=True))
         spec["blocks"].append(rb)
+    if shared_rules and rnd.random() < 0.2:
+        # one more rule block made of the very same Rule objects as the first one (a list of rules handed to two blocks),
+        # with operators of its own; or a rule object that occurs twice in its block
+        first = spec["blocks"][0]
+        if rnd.random() < 0.7:
+            spec["blocks"].append(dict(first, name="shared", conjunction=rnd.choice(TNORMS), disjunction=rnd.choice(SNORMS[:-1]), implication=rnd.choice(TNORMS), same_rules_as=0, rules=[dict(r) for r in first["rules"]]))
+        elif first["rules"] and first["activation"] and first["activation"]["cls"] == "General":
+            # (only under General: the other methods rank or normalise the rules of a block, and what a rule object that occurs
+            # twice in such a block should get is not defined)
+            k = rnd.randrange(len(first["rules"]))
+            first["rules"].append(dict(first["rules"][k], same_rule_as=k))
     if share_defuzzifier and rnd.random() < 0.5:
         # one Automatic weighted defuzzifier object for all the weighted output variables (what Engine.configure does)
         spec["shared_defuzzifier"] = rnd.choice(["WeightedAverage", "WeightedSum"])
@@ -181,6 +204,8 @@ def gen_engine(
         spec["route"] = rnd.choice(ROUTES)
         if spec["route"] in ("fll", "python", "rule-create-with-engine") and any(r.get("broken") for rb in spec["blocks"] for r in rb["rules"]):
             spec["route"] = "constructors"  # the text forms and Rule.create(text, engine) refuse the rule outright
+        if spec["route"] in ("fll", "python", "copy", "deepcopy") and any("same_rules_as" in rb or any("same_rule_as" in r for r in rb["rules"]) for rb in spec["blocks"]):
+            spec["route"] = "constructors"  # sharing of rule objects does not survive the text forms (and copies are C13's business)
         if spec["route"] == "engine-configure" and not uniform(rnd, spec):
             spec["route"] = "constructors"
     if descriptions:
@@ -323,10 +348,17 @@ def _build(fl, spec, route):
     for rb in spec["blocks"]:
         rules = []
         for r in rb["rules"]:
+            if "same_rules_as" in rb:
+                break
+            if "same_rule_as" in r:
+                rules.append(rules[r["same_rule_as"]])
+                continue
             rule = fl.Rule.create(r["text"], e) if route == "rule-create-with-engine" else fl.Rule.create(r["text"])
             _set_weight(rule, r["weight"], spec["decimals"])
             rule.enabled = r["enabled"]
             rules.append(rule)
+        if "same_rules_as" in rb:
+            rules = list(e.rule_blocks[rb["same_rules_as"]].rules)
         a = rb["activation"]
         if route == "factories":
             fm = fl.settings.factory_manager
